@@ -40,7 +40,8 @@ pub enum Field {
 pub struct Pattern {
     /// keyword index
     pub kw: u8,
-    /// layout: 0 `kw {n}`, 1 `{n} kw`, 2 `{n} kw {k}`, 3 `kw {n} kw2 {k}`
+    /// layout: 0 `kw {n}`, 1 `{n} kw`, 2 `{n} kw {k}`, 3 `kw {n} kw2 {k}`; 4 `{n} {TEXT:t}` and 5 `{TEXT:t} {n}` have no
+    /// keyword at all (they match every `number word` line; rules that use them always decline)
     pub layout: u8,
     pub n: Field,
     pub kw2: u8,
@@ -60,12 +61,17 @@ impl Pattern {
         let kw2 = keyword(self.kw2, lang);
         let n = Pattern::field(&self.n, "n");
         let k = "{NUMBER:k}";
-        match self.layout % 4 {
+        match self.layout % 6 {
             0 => format!("{} {}", kw, n),
             1 => format!("{} {}", n, kw),
             2 => format!("{} {} {}", n, kw, k),
-            _ => format!("{} {} {} {}", kw, n, kw2, k),
+            3 => format!("{} {} {} {}", kw, n, kw2, k),
+            4 => format!("{} {{TEXT:t}}", n),
+            _ => format!("{{TEXT:t}} {}", n),
         }
+    }
+    pub fn is_generic(&self) -> bool {
+        self.layout % 6 >= 4
     }
     /// a line matching the pattern with the given field values
     pub fn line(&self, lang: &str, nv: u32, kv: u32) -> String {
@@ -77,15 +83,17 @@ impl Pattern {
             Field::Money => format!("{} usd", nv),
             Field::Text => "garply".to_string(),
         };
-        match self.layout % 4 {
+        match self.layout % 6 {
             0 => format!("{} {}", kw, n),
             1 => format!("{} {}", n, kw),
             2 => format!("{} {} {}", n, kw, kv),
-            _ => format!("{} {} {} {}", kw, n, kw2, kv),
+            3 => format!("{} {} {} {}", kw, n, kw2, kv),
+            4 => format!("{} waldo", n),
+            _ => format!("waldo {}", n),
         }
     }
     fn has_k(&self) -> bool {
-        self.layout % 4 >= 2
+        self.layout % 6 == 2 || self.layout % 6 == 3
     }
 }
 
@@ -252,7 +260,10 @@ fn build_fresh(m: &Model, deleted: &std::collections::BTreeSet<u64>) -> Result<S
     Ok(c)
 }
 
-const BUILTIN_PANEL: [&str; 6] = ["1 + 2 * 3", "10 usd to try", "10% of 200", "5 km to m", "12/12/2020 + 1 day", "2 hours 30 minutes"];
+const BUILTIN_PANEL: [&str; 13] = [
+    "1 + 2 * 3", "10 usd to try", "10% of 200", "5 km to m", "12/12/2020 + 1 day", "2 hours 30 minutes", "1 hour + 30 minutes", "90 seconds 45 seconds as minutes", "90 minutes as hours", "1 lb to oz", "2 m + 50 cm", "10:30 EST to CET",
+    "0x10 to binary",
+];
 
 pub struct Registry;
 
@@ -280,6 +291,7 @@ impl Prop for Registry {
         let mut rejected_dup = false;
         let mut builds = 0;
 
+        let plain_ref = &plain;
         let mut differential = |calc: &SmartCalc, m: &Model, deleted: &std::collections::BTreeSet<u64>, acc: &mut Acc, w: &mut Worker, why: &str| {
             let fresh = match build_fresh(m, deleted) {
                 Ok(c) => c,
@@ -302,6 +314,26 @@ impl Prop for Registry {
                 }
                 panel.push(("en".to_string(), format!("3 {} to km", u)));
                 panel.push(("en".to_string(), format!("3 {} + 2 {}", u, u)));
+            }
+            // the built-in sentences are untouched by registrations that cannot match them: rules with fresh keywords
+            // or always-declining generic rules, user families with fresh unit names (an operator-word rule may match `*`)
+            let operator_word_rule = m.rules.iter().any(|(_, s)| s.patterns.iter().any(|q| !q.is_generic() && (q.kw % KEYWORDS.len() as u8 >= 8 || (q.layout % 6 == 3 && q.kw2 % KEYWORDS.len() as u8 >= 8))));
+            if !operator_word_rule {
+                for line in BUILTIN_PANEL.iter() {
+                    w.count_eval(2);
+                    match (eval_on(calc, "en", line), eval_on(plain_ref, "en", line)) {
+                        (Ok(a), Ok(b)) => {
+                            if a.slots.len() != b.slots.len() || !a.slots.iter().zip(b.slots.iter()).all(|(x, y)| x.same(y)) {
+                                acc.fail(format!("{}: the built-in sentence {:?} gives {} with the registrations but {} on a plain calculator", why, line, a.slots.first().map(|s| s.brief()).unwrap_or_default(), b.slots.first().map(|s| s.brief()).unwrap_or_default()));
+                                return;
+                            }
+                        }
+                        (Err(p), _) | (_, Err(p)) => {
+                            acc.fail(format!("{}: {:?} panicked at {}: {}", why, line, p.site, p.message));
+                            return;
+                        }
+                    }
+                }
             }
             for (lang, line) in panel {
                 w.count_eval(2);
@@ -453,8 +485,11 @@ impl Prop for Registry {
                     // line exactly as on a calculator without any rule
                     // every live pattern of that language that shares a keyword with the probe's pattern
                     let kws = |q: &Pattern| -> Vec<u8> {
+                        if q.is_generic() {
+                            return vec![];
+                        }
                         let mut v = vec![q.kw % KEYWORDS.len() as u8];
-                        if q.has_k() && q.layout % 4 == 3 {
+                        if q.has_k() && q.layout % 6 == 3 {
                             v.push(q.kw2 % KEYWORDS.len() as u8);
                         }
                         v
@@ -568,7 +603,11 @@ pub fn pattern_strategy() -> impl Strategy<Value = Pattern> {
 
 pub fn rule_strategy() -> impl Strategy<Value = RuleSpec> {
     let beh = prop_oneof![1 => Just(Behaviour::DeclineAlways), 2 => (0u8..50).prop_map(Behaviour::DeclineOdd), 4 => (0u8..50).prop_map(Behaviour::Number), 1 => Just(Behaviour::Money), 1 => Just(Behaviour::Percent), 1 => Just(Behaviour::Duration)];
-    (0u8..4, prop::collection::vec(pattern_strategy(), 1..=3), beh).prop_map(|(name, patterns, behaviour)| RuleSpec { name, patterns, behaviour })
+    prop_oneof![
+        9 => (0u8..4, prop::collection::vec(pattern_strategy(), 1..=3), beh).prop_map(|(name, patterns, behaviour)| RuleSpec { name, patterns, behaviour }),
+        // a rule whose patterns have no keyword (`{NUMBER:n} {TEXT:t}`): it matches every `number word` line and always declines
+        1 => (0u8..4, prop::collection::vec((4u8..6, any::<bool>()), 1..=2)).prop_map(|(name, ls)| RuleSpec { name, patterns: ls.into_iter().map(|(layout, money)| Pattern { kw: 0, layout, n: if money { Field::Money } else { Field::Number }, kw2: 1 }).collect(), behaviour: Behaviour::DeclineAlways }),
+    ]
 }
 
 pub fn op_strategy() -> impl Strategy<Value = Op> {
@@ -657,6 +696,86 @@ pub fn regressions() -> Vec<History> {
     ]
 }
 
+// ---- a user family that re-uses the name of a built-in unit ------------------------------------------
+
+/// A user-defined family may call one of its units like a built-in unit (a fluid ounce `oz`, a minute `m`).
+/// Conversions and arithmetic between BUILT-IN units written with an unambiguous built-in source unit (1 lb to oz,
+/// 1 km to m) stay what the unit definitions say: the family converts along its own chain, it does not take over
+/// the built-in ones.
+#[derive(Clone, Debug, Serialize, Deserialize)]
+pub struct Collision {
+    pub family: String,
+    pub reused: String,
+    pub own: String,
+    /// index of the re-used name inside the family (1 or 2)
+    pub at: u8,
+}
+
+pub struct NameCollision;
+
+const COLLISION_LINES: [&str; 12] = ["1 lb to oz", "1 kg to oz", "1 stone to oz", "1 km to m", "5 cm to m", "1 mile to m", "2 km + 50 cm", "1 kg + 500 g", "1 gb to byte", "1 kb to bit", "1 lb to g", "12 inch to cm"];
+
+impl Prop for NameCollision {
+    type Case = Collision;
+    fn shrink_iters(&self) -> u32 {
+        100
+    }
+    fn name(&self) -> &'static str {
+        "family-reusing-a-built-in-unit-name"
+    }
+    fn check(&self, w: &mut Worker, c: &Collision) -> Verdict {
+        let rendered = format!("family {:?}: units {:?}", c.family, if c.at == 1 { vec![c.reused.clone(), c.own.clone()] } else { vec![c.own.clone(), c.reused.clone()] });
+        let plain = build_calc(&Cfg::default());
+        let mut calc = build_calc(&Cfg::default());
+        let reg = guarded(|| {
+            let mut ok = calc.add_dynamic_type(c.family.clone());
+            let names = if c.at == 1 { [&c.reused, &c.own] } else { [&c.own, &c.reused] };
+            for (k, n) in names.iter().enumerate() {
+                ok &= calc.add_dynamic_type_item(c.family.clone(), k + 1, format!("{{value}} {}", n), vec![format!("{{NUMBER:value}} {{TEXT:type:{}}}", n)], "{value} / 3".to_string(), "{value} * 3".to_string(), vec![n.to_string()], None, None, None);
+            }
+            ok
+        });
+        match reg {
+            Ok(true) => {}
+            Ok(false) => return Verdict::fail("registration of a fresh family was rejected".into(), rendered),
+            Err(p) => return Verdict::fail(format!("registration panicked at {}: {}", p.site, p.message), rendered),
+        }
+        let mut acc = Acc::new();
+        for line in COLLISION_LINES.iter() {
+            // only lines whose SOURCE units are not the re-used name (that one is ambiguous by the user's own doing)
+            if line.split(' ').any(|wd| wd == c.reused && !line.ends_with(&format!("to {}", c.reused))) {
+                continue;
+            }
+            w.count_eval(2);
+            match (eval_on(&calc, "en", line), eval_on(&plain, "en", line)) {
+                (Ok(a), Ok(b)) => {
+                    if !a.slots.iter().zip(b.slots.iter()).all(|(x, y)| x.same(y)) {
+                        acc.fail(format!("{:?} gives {} once the family is registered, {} on a plain calculator", line, a.slots.first().map(|s| s.brief()).unwrap_or_default(), b.slots.first().map(|s| s.brief()).unwrap_or_default()));
+                        break;
+                    }
+                }
+                (Err(p), _) | (_, Err(p)) => {
+                    acc.fail(format!("{:?} panicked at {}: {}", line, p.site, p.message));
+                    break;
+                }
+            }
+        }
+        acc.finish(rendered).nt(true).class("user-family-reuses-a-built-in-unit-name")
+    }
+}
+
+pub fn collision_table() -> Vec<Collision> {
+    let mut out = vec![];
+    for family in ["aardvark", "cooking", "clock", "kitchen", "zoo", "memory2"] {
+        for reused in ["oz", "m", "g", "byte", "cm", "lb"] {
+            for at in [1u8, 2] {
+                out.push(Collision { family: family.to_string(), reused: reused.to_string(), own: "zib".to_string(), at });
+            }
+        }
+    }
+    out
+}
+
 pub fn self_check() {
     let v = crate::vocab::vocab();
     for w in KEYWORDS.iter().chain(UNIT_NAMES.iter()).chain(RULE_NAMES.iter()) {
@@ -669,7 +788,7 @@ pub fn self_check() {
 
 pub fn run(ctx: &Ctx) {
     self_check();
-    ctx.rule("call histories of 1-14 operations on one calculator: add_rule(en|tr|unknown language, 1-3 patterns of fresh keywords - or an operator word of the rule's own language (times/minus, kere/eksi) - and typed fields {NUMBER:n} {PERCENT:n} {MONEY:n} {TEXT:n} {NUMBER:k}, behaviour computed from the NAMED fields: decline always / decline when n is odd / Number(c+2n+3k) / Money / Percent / Duration), delete_rule (existing, never registered, already deleted, unknown language; names from a pool of four so that duplicates occur), add_dynamic_type, add_dynamic_type_item (fresh / duplicate index / unknown family, integer link factors; families whose lowest index is 0, 1 or 3), probe evaluations of registered and deleted patterns, family conversions; oracle: return values against a model (add_rule false iff unknown language, delete_rule true iff a live rule of that name exists, removing the first; add_dynamic_type false iff the name exists; add_dynamic_type_item false iff the family is unknown or the index taken); effect: a line matched by exactly one live rule evaluates to what its behaviour computes, a declining rule or no rule leaves the line as on a plain calculator; conversions = product of the declared link factors; and after every deletion and at the end: a panel of probe lines (every registered and deleted pattern, six built-in sentences, every pair of family items, cross-family lines) evaluates identically on the long-lived calculator and on a fresh one on which only the surviving registrations were replayed in order; non-trivial = a deletion followed by a probe of the deleted rule's pattern, two rules of equal name, or a rejected duplicate followed by a conversion");
+    ctx.rule("call histories of 1-14 operations on one calculator: add_rule(en|tr|unknown language, 1-3 patterns of fresh keywords - or no keyword at all for rules that always decline, or an operator word of the rule's own language (times/minus, kere/eksi) - and typed fields {NUMBER:n} {PERCENT:n} {MONEY:n} {TEXT:n} {NUMBER:k}, behaviour computed from the NAMED fields: decline always / decline when n is odd / Number(c+2n+3k) / Money / Percent / Duration), delete_rule (existing, never registered, already deleted, unknown language; names from a pool of four so that duplicates occur), add_dynamic_type, add_dynamic_type_item (fresh / duplicate index / unknown family, integer link factors; families whose lowest index is 0, 1 or 3), probe evaluations of registered and deleted patterns, family conversions; oracle: return values against a model (add_rule false iff unknown language, delete_rule true iff a live rule of that name exists, removing the first; add_dynamic_type false iff the name exists; add_dynamic_type_item false iff the family is unknown or the index taken); effect: a line matched by exactly one live rule evaluates to what its behaviour computes, a declining rule or no rule leaves the line as on a plain calculator; conversions = product of the declared link factors; and after every deletion and at the end: the built-in sentences (arithmetic, money, percent, units, dates, durations incl. several parts and 'as', zones, bases) evaluate as on a plain calculator unless an operator-word rule is live, and a panel of probe lines (every registered and deleted pattern, thirteen built-in sentences, every pair of family items, cross-family lines) evaluates identically on the long-lived calculator and on a fresh one on which only the surviving registrations were replayed in order; non-trivial = a deletion followed by a probe of the deleted rule's pattern, two rules of equal name, or a rejected duplicate followed by a conversion");
     ctx.assume("patterns consist of a fresh keyword plus typed fields (>= 2 tokens, the result cannot match again); unit items have fresh names, contiguous indices are needed for a conversion to be asserted");
     ctx.run_table(&Registry, "regressions", regressions(), false);
     let max = match ctx.tier {
@@ -677,11 +796,13 @@ pub fn run(ctx: &Ctx) {
         crate::engine::Tier::Thorough => 15,
     };
     ctx.run_generated(&Registry, ctx.tier.pick(1_000, 20_000), || history_strategy(max));
+    ctx.run_table(&NameCollision, "name-collisions", collision_table(), true);
 }
 
 pub fn replay(w: &mut Worker, sub: &str, case: &serde_json::Value) -> Option<Verdict> {
     match sub {
         "registry-history" => crate::engine::replay_case(&Registry, w, case),
+        "family-reusing-a-built-in-unit-name" => crate::engine::replay_case(&NameCollision, w, case),
         _ => None,
     }
 }
